@@ -277,6 +277,21 @@ theorem finalizeSPE_count (d : Domain) (o : Oracle) (xs : List (List Rat)) (hic 
   unfold finalizeSPE decodeAll
   simp only [hic, Bool.false_eq_true, if_false, decodeRows_length]
 
+/-- The Parzen sampler returns exactly the requested number of rows, each an accepted proposal or a padding sample,
+    whenever the uniform sampler returns what it is asked for and the sub-selection keeps `k` of the accepted rows. -/
+theorem drawSamples_count {P} (k : Nat) (accepted : List P) (pad : Nat → List P) (pick : List P → List P)
+    (hpad : ∀ m, (pad m).length = m) (hpick : (pick accepted).length = k ∧ ∀ x ∈ pick accepted, x ∈ accepted) :
+    (drawSamples k accepted pad pick).length = k ∧
+    ∀ x ∈ drawSamples k accepted pad pick, x ∈ accepted ∨ x ∈ pad (k - accepted.length) := by
+  unfold drawSamples
+  split_ifs with h1 h2
+  · refine ⟨by rw [List.length_append, hpad]; omega, fun x hx => ?_⟩
+    rcases List.mem_append.mp hx with h | h
+    · exact Or.inl h
+    · exact Or.inr h
+  · exact ⟨hpick.1, fun x hx => Or.inl (hpick.2 x hx)⟩
+  · exact ⟨by omega, fun x hx => Or.inl hx⟩
+
 /-! ### Task costs -/
 
 theorem taskColumn_mem (opts costs : List Rat) (hne : opts ≠ []) :
